@@ -12,6 +12,7 @@ From Cedar Require Export EstRun.
 From Cedar Require Export PERun.
 From Cedar Require Export PolicySetRun.
 From Cedar Require Export Batched.
+From Cedar Require Export TypecheckRun.
 
 Definition dispatchers : list (string -> list sexp -> option sexp) :=
   [ run_core
@@ -24,6 +25,7 @@ Definition dispatchers : list (string -> list sexp -> option sexp) :=
   ; run_pe
   ; run_pset
   ; run_batched
+  ; run_typecheck
   ].
 
 Fixpoint dispatch (ds : list (string -> list sexp -> option sexp)) (cmd : string) (args : list sexp) : sexp :=
